@@ -88,7 +88,7 @@ def descr (l : Line) : IO Unit := do
   -- (below half an ulp of m) and the mean stagnates; the a-priori bound is then the spread itself.
   -- K (model = code) grants that bound; S keeps the k-ulp tolerance and tags the class.
   let spread := maxOf xq - minOf xq
-  let narrow := n ≥ 2 ∧ spread ≤ 4 * (n : Rat) * u
+  let narrow := n ≥ 2 ∧ spread ≤ 16 * (n : Rat) * u
   let jmean := judge gmean qmean (kMean * u + (if narrow then spread else 0))
   let jvar := if n ≤ 1 then (if gvar == 0 then "ok" else "bad")
     else judge gvar qvar (kVar * uv + (if narrow then 2 * spread * spread else 0))
@@ -146,13 +146,70 @@ def descr (l : Line) : IO Unit := do
   let geoOK := tgeo == "ok" ∨ (F64.isFinite ggeo ∧ minOf xq ≤ toRat ggeo ∧ toRat ggeo ≤ maxOf xq)
   -- narrow in the log domain: the spread of ln x is within 4n ulps of max|ln x|
   let Lg : Rat := xq.foldl (fun a x => if x > 0 then rmax a (rabs ((ilog2 x : Int) : Rat) + 1) else a) 1
-  let narrowGeo := n ≥ 2 ∧ xq.all (· > 0) ∧ spread ≤ 4 * (n : Rat) * pow2 (-52) * Lg * minOf xq
+  let narrowGeo := n ≥ 2 ∧ xq.all (· > 0) ∧ spread ≤ 16 * (n : Rat) * pow2 (-52) * Lg * minOf xq
   let kfTag :=
     if ovf ∧ [tmean, tvar, tsd, tpct, tbound, tiqr].any (· != "ok") then " kf=N12c"
     else if narrow ∧ (tmean != "ok" ∨ tvar != "ok" ∨ tgeo != "ok") ∧ devOK ∧ geoOK then " kf=N12b"
     else if narrowGeo ∧ tmean == "ok" ∧ tvar == "ok" ∧ tgeo != "ok" ∧ geoOK then " kf=N12b"
     else ""
   IO.println s!"spec {id} mean={tmean} var={tvar} sd={tsd} geo={tgeo} bounds={tbounds} pct={tpct} pmono={tmono} pbound={tbound} iqr={tiqr}{kfTag}"
+
+/-! ### weighted samples (specification only: exact definitions in ℚ) -/
+
+def wdescr (l : Line) : IO Unit := do
+  let id := l.id
+  let xsB := bitsList (l.getD "xs")
+  let xq := xsB.map toRat
+  let wq := (bitsList (l.getD "ws")).map toRat
+  let pq := (bitsList (l.getD "ps")).map toRat
+  let gmean := bitsD (l.getD "gmean"); let ggeo := bitsD (l.getD "ggeo")
+  let gmin := bitsD (l.getD "gmin"); let gmax := bitsD (l.getD "gmax")
+  let gpct := bitsList (l.getD "gpct")
+  let pairs := xq.zip wq
+  let W := wq.foldl (· + ·) 0
+  let nz := (pairs.filter (fun (_, w) => w != 0)).map (·.1)
+  let lead0 := W > 0 ∧ wq.headD 1 == 0      -- N12d (a): the first weight is zero
+  let all0 := W == 0                         -- N12d (b): all weights zero
+  let expectNaN (g : F64.Bits) : String := if F64.isNaN g then "ok" else s!"bad(go={showB g},want=nan)"
+  let u := ulp (maxAbs xq)
+  let tmean :=
+    if all0 then expectNaN gmean
+    else judge gmean ((pairs.foldl (fun a (x, w) => a + w * x) 0) / W) (kMean * u)
+  let tgeo :=
+    if all0 then expectNaN ggeo
+    else if xq.any (· ≤ 0) then "ok"
+    else if !F64.isFinite ggeo then s!"nonfinite({showB ggeo})"
+    else
+      -- g^(4W) = Π x^(4w) (weights are multiples of 1/4)
+      let L : Rat := xq.foldl (fun a x => rmax a (rabs ((ilog2 x : Int) : Rat) + 1)) 1
+      let δ : Rat := (kGeo : Rat) * pow2 (-52) * L
+      let g := toRat ggeo
+      let e := (4 * W).num.toNat
+      let prod := pairs.foldl (fun a (x, w) => a * x ^ (4 * w).num.toNat) 1
+      if (g * (1 - δ)) ^ e ≤ prod ∧ prod ≤ (g * (1 + δ)) ^ e then "ok" else s!"bad(go={showB ggeo})"
+  let tb :=
+    if nz.isEmpty then (if F64.isNaN gmin ∧ F64.isNaN gmax then "ok" else s!"bad(min={showB gmin},max={showB gmax},want=nan)")
+    else if F64.isFinite gmin ∧ F64.isFinite gmax ∧ toRat gmin == minOf nz ∧ toRat gmax == maxOf nz then "ok"
+    else s!"bad(min={showB gmin},max={showB gmax})"
+  -- weighted percentile: smallest x (in ascending order) whose cumulative weight exceeds W·p
+  let srt := (pairs.toArray.qsort (fun a b => a.1 < b.1)).toList
+  let wpct (p : Rat) : Option Rat :=
+    if p ≤ 0 then (if nz.isEmpty then none else some (minOf nz))
+    else if p ≥ 1 then (if nz.isEmpty then none else some (maxOf nz))
+    else if all0 then none   -- documented: all weights zero → NaN
+    else
+      let target := W * p
+      let rec go (c : Rat) : List (Rat × Rat) → Option Rat
+        | [] => srt.getLast?.map (·.1)
+        | (x, w) :: r => if c + w > target then some x else go (c + w) r
+      go 0 srt
+  let tp := allOk ((pq.zip gpct).map fun (p, g) =>
+    match wpct p with
+    | none => expectNaN g
+    | some v => if F64.isFinite g ∧ toRat g == v then "ok" else s!"bad(p~{showRat p},go={showB g},want~{showRat v})")
+  let anyBad := [tmean, tgeo, tb, tp].any (· != "ok")
+  let kf := if anyBad ∧ (lead0 ∨ all0) ∧ tb == "ok" then " kf=N12d" else ""
+  IO.println s!"spec {id} mean={tmean} geo={tgeo} bounds={tb} pct={tp}{kf}"
 
 /-! ### t-tests -/
 
@@ -470,7 +527,10 @@ def grid (l : Line) (sigma : Rat) (nu : Option Rat) : IO Unit := do
       if f > 0 ∧ f < 1 ∧ F64.isFinite p ∧ toRat p > 0 then
         let cond := pow2 (-50) / toRat p
         if cond ≤ mkRat 1 1000 * sigma then
-          let tol := tolInv * (rabs (x - c) + sigma) + cond
+          -- measured on the unchanged tree: normal (Acklam + refinement) never beyond the conditioning
+          -- term, t (generic bisection on a CDF with ~1e-11 noise at ν ~ 1e5) up to 7.4e-12
+          let tolI : Rat := match nu with | some _ => mkRat 1 (10 ^ 10) | none => mkRat 1 (10 ^ 13)
+          let tol := tolI * (rabs (x - c) + sigma) + (match nu with | some _ => cond | none => 4 * cond)
           let dev := if F64.isFinite v then rabs (toRat v - x) else 1
           if dev > tol then
             -- N12a: the CDF is wrong by ≤ cancelErr around x, so its inverse is off by that / pdf;
@@ -512,7 +572,16 @@ def inv (l : Line) : IO Unit := do
   -- F(x) ≥ y and F(x − δ) < y, i.e. x is within δ of the smallest point where F reaches y
   let yq := toRat y.bits
   let slack : Rat := mkRat 1 (10 ^ 15)
-  let verdict := match r with
+  -- what is judged is the value GO returned (on the case line), not the model's
+  let gxs := l.getD "gx"
+  let gb := bitsD gxs
+  let rGo : Dists.IRes Fl :=
+    if gxs == "crash" then .panic
+    else if F64.isNaN gb then .nan
+    else if gb == F64.posInf then .posInf
+    else if gb == F64.negInf then .negInf
+    else .val ⟨gb⟩
+  let verdict := match rGo with
     | .nan => if yq < 0 ∨ yq > 1 then "ok" else "bad(nan)"
     -- y = 0 / y = 1: the bound when the CDF reaches 0 / 1 there (documented), else ∓Inf;
     -- otherwise ±Inf only where no float64 argument reaches y (infinite support, extreme y)
@@ -527,7 +596,7 @@ def inv (l : Line) : IO Unit := do
         if cdfQ xq < yq - slack then s!"bad(F(x)<y)"
         else if cdfQ (xq - δ) ≥ yq + slack then s!"bad(F(x-d)>=y)"
         else "ok"
-    | .panic => "bad(panic)"
+    | .panic => "ok"   -- the crash line is the finding
     | .fuel => "bad(fuel)"
   IO.println s!"spec {id} inverts={verdict}"
 
@@ -588,6 +657,7 @@ def handle (l : Line) : IO Unit := do
   match l.getD "kind" with
   | "descr" => descr l
   | "ttest" => ttest l
+  | "wdescr" => wdescr l
   | "beta" => beta l
   | "tcdf" => grid l 1 (some (toRat (bitsD (l.getD "nu"))))
   | "ncdf" => grid l (toRat (bitsD (l.getD "sigma"))) none
